@@ -49,9 +49,13 @@ func TestVReplay(t *testing.T) {
 	}()
 	select {
 	case <-done:
-	case <-time.After(10 * time.Second):
+	case <-time.After(5 * time.Second):
 		vmu.Lock()
-		vout.Fail = "watchdog: harness did not terminate in 10s (deadlock?)"
+		if vout.Fail == "" {
+			vout.Fail = "watchdog: harness did not terminate in 5s (deadlock?)"
+		} else {
+			vout.Fail = "watchdog: " + vout.Fail
+		}
 		vmu.Unlock()
 	}
 	vmu.Lock()
